@@ -66,7 +66,8 @@ def invoke(fn, names_, args, environment, pos):
         if isinstance(arg, NodeSpread):
             argvalue = arg.evaluate(environment)
             if argvalue.isMap():
-                for key, value in argvalue.value.items():
+                for key in argvalue.getSortedKeys():
+                    value = argvalue.value[key]
                     values.append(value)
                     if key.isString():
                         names.append(key.value)
@@ -1188,6 +1189,8 @@ class NodeList:
                 lst = item.evaluate(environment)
                 if lst.isSet():
                     spreadvalues = lst.getSortedItems()
+                elif lst.isMap():
+                    spreadvalues = lst.getSortedKeys()
                 else:
                     spreadvalues = lst.value
                 for value in spreadvalues:
